@@ -11,7 +11,7 @@ print(pid, "evals", r["evaluations"], "nontrivial", r["distinct_nontrivial"], "m
       "impl_failures", [f["key"] for f in r["impl_failures"]], "%.1fs" % (time.time() - t0))
 c = Counter()
 for m in r["mismatches"]:
-    c[(m["ops"][-1]["op"] + "." + str(m["ops"][-1].get("f", "")), tuple(m["diffs"])[:3])] += 1
+    c[(str(m["ops"][-1].get("op", m["ops"][-1].get("kit", "?"))) + "." + str(m["ops"][-1].get("f", "")), tuple(m["diffs"])[:3])] += 1
 for k, v in c.most_common(15):
     print("  ", v, k)
 print("  outcomes", r["distribution"].get("outcomes"))
